@@ -47,7 +47,8 @@
    FRAME:  mc_expand_frame (mc_expand a st = mc_expand b st for same_frame a b, st fitting), set_state_frame_eq,
            Reach_frame, Closed_frame, GoodSt_frame; mc_staged_run_frame (the stage runs on s2, everything is stated for F)
    RUN level (run_impl / run of Model/McRun.v; s2 := the system after the preliminary callback, start := get_state s2;
-   hypothesis StInv tleb s2 - for cb = [] this is StInv tleb sys: StInv_started)
+   hypothesis StInv tleb s2 - for cb = [] this is StInv tleb sys: StInv_started; for callbacks that only change the
+   ordering mode / the network it follows from StInv tleb sys: StInv_stage_simple)
      run_impl_inv           inversion of run_impl
      run_err_genuine (any cache that is Closed), run_err_genuine_fresh     no side condition
      run_ok_sound_complete, run_verdict (C03), run_collected_exact, run_status_counts, run_status_counts_off (C16),
@@ -57,8 +58,13 @@
      stages_frame, stages_same_frame, cb_run_same_frame: they all have one frame
      run_starts_staged, run_from_states_staged (C16): if every stage system is StageOK (frame of F, StInv, network net0,
        in D) the final cache is Closed for mc_expand F and ss_checked is exactly (up to veq) the union of the parts
-       reachable from the stage start states; the system is rolled back.  NOT proved: the combined statistics
-       (combine_statuses / combine_collected) of run_starts - only the per-stage ones (run_status_counts, run_collected_exact).
+       reachable from the stage start states; the system is rolled back.  run_starts_stages: an ROk result went through
+       all stages (the Stages hypothesis is satisfiable exactly then).
+     run_starts_stats, run_from_states_stats (C16, NO side condition): the combined statistics (McStats::combine).
+       debug: cnt k stat = number of checked states (over all stages) whose counted status is k  (count_counted_final:
+       = final_status on states with an Ok verdict); non-debug: stat = [];  coll is exactly the collect-worthy part of
+       ss_checked, one representative per veq class (CollU).  Generic lemmas in Section Combine: cnt_combine,
+       CollU_combine, statuses_sorted_run, stage_stats.
    Part 3 (reference semantics) is in Proofs/McSearchRef.v. *)
 From Coq Require Import List NArith Bool Lia.
 From ASV Require Import Base.Util Base.Msg Base.Log Model.Store Spec.StoreSpec Model.McSys Model.Search Model.McRun
@@ -89,6 +95,174 @@ Proof.
   - split; [discriminate|]. intros [H|(_ & _ & _ & H & _)]; discriminate.
   - split; [discriminate|]. intros [H|(_ & _ & _ & H & _)]; discriminate.
 Qed.
+
+
+(* ---------------- McStats::combine (Search.combine_statuses / combine_collected), generic ---------------- *)
+Section Combine.
+  Variable St : Type.
+  Variable veq : St -> St -> bool.
+  Hypothesis veq_refl : forall s, veq s s = true.
+  Hypothesis veq_sym : forall s t, veq s t = true -> veq t s = true.
+  Hypothesis veq_trans : forall s t u, veq s t = true -> veq t u = true -> veq s u = true.
+
+  (* the sum of all entries of key k *)
+  Fixpoint tot (k : N) (b : list (N * N)) : N :=
+    match b with [] => 0 | (k0, v0) :: r => (if N.eqb k k0 then v0 else 0) + tot k r end.
+
+  Lemma cnt_step a k0 v0 k :
+    cnt k (match sget N.compare k0 a with
+           | Some c => sins N.compare k0 (c + v0) a
+           | None => sins N.compare k0 v0 a
+           end) = cnt k a + (if N.eqb k k0 then v0 else 0).
+  Proof.
+    unfold cnt. destruct (N.eqb k k0) eqn:E.
+    - apply N.eqb_eq in E. subst k0. destruct (sget N.compare k a); rewrite sget_sins_same; lia.
+    - apply N.eqb_neq in E. destruct (sget N.compare k0 a); rewrite sget_sins_other by exact E; lia.
+  Qed.
+
+  Lemma cnt_combine_tot b : forall a k, cnt k (combine_statuses a b) = cnt k a + tot k b.
+  Proof.
+    unfold combine_statuses. induction b as [|[k0 v0] r IH]; intros a k; cbn [fold_left tot fst snd]; [lia|].
+    rewrite IH, cnt_step. lia.
+  Qed.
+
+  Lemma tot_zero k r : Forall (fun q : N * N => N.compare k (fst q) = Lt) r -> tot k r = 0.
+  Proof.
+    induction 1 as [|[k1 v1] r Hk _ IH]; cbn [tot]; [reflexivity|]. cbn [fst] in Hk.
+    assert (E : N.eqb k k1 = false) by (apply N.eqb_neq; intros ->; rewrite N.compare_refl in Hk; discriminate).
+    rewrite E, IH. reflexivity.
+  Qed.
+
+  Lemma tot_cnt b k : ssorted N.compare b -> tot k b = cnt k b.
+  Proof.
+    induction b as [|[k0 v0] r IH]; intros Hs; [reflexivity|].
+    apply ssorted_inv in Hs. destruct Hs as [Hf Hs]. cbn [tot]. unfold cnt. cbn [sget]. rewrite is_eq_ncmp.
+    destruct (N.eqb k k0) eqn:E.
+    - apply N.eqb_eq in E. subst k0. rewrite (tot_zero k r Hf). lia.
+    - rewrite (IH Hs). unfold cnt. lia.
+  Qed.
+
+  Theorem cnt_combine a b k : ssorted N.compare b -> cnt k (combine_statuses a b) = cnt k a + cnt k b.
+  Proof. intros Hs. rewrite cnt_combine_tot, (tot_cnt b k Hs). reflexivity. Qed.
+
+  Lemma count_status_app (f : St -> option N) st a b :
+    count_status St f st (a ++ b) = count_status St f st a + count_status St f st b.
+  Proof. unfold count_status. rewrite filter_app, app_length, Nat2N.inj_add. reflexivity. Qed.
+
+  (* combine_collected: the union modulo veq, first representative kept *)
+  Local Notation cc := (combine_collected St veq).
+  Local Notation memV := (Search.mem St veq).
+
+  Lemma cc_in b : forall a c, In c (cc a b) -> In c a \/ In c b.
+  Proof.
+    unfold combine_collected. induction b as [|x r IH]; intros a c H; cbn [fold_left] in H; [now left|].
+    destruct (IH _ c H) as [H1|H1]; [|right; now right].
+    destruct (memV x a); [now left|]. apply in_app_or in H1 as [H1|[<-|[]]]; [now left|right; now left].
+  Qed.
+  Lemma cc_cover b : forall a x, In x a \/ In x b -> exists c, In c (cc a b) /\ veq x c = true.
+  Proof.
+    unfold combine_collected. induction b as [|y r IH]; intros a x H; cbn [fold_left].
+    - destruct H as [H|[]]. exists x. split; [exact H|apply veq_refl].
+    - destruct (memV y a) eqn:E.
+      + destruct H as [H|[<-|H]]; [apply IH; now left| |apply IH; now right].
+        apply (mem_true St veq) in E as (z & Hz & Ez).
+        destruct (IH a z (or_introl Hz)) as (c & Hc & Ec). exists c. split; [exact Hc|eapply veq_trans; eauto].
+      + destruct H as [H|[<-|H]]; [apply IH; left; apply in_or_app; now left| |apply IH; now right].
+        apply IH. left. apply in_or_app. right. now left.
+  Qed.
+  Lemma cc_nodup b : forall a, NoDupV St veq a -> NoDupV St veq (cc a b).
+  Proof.
+    unfold combine_collected. induction b as [|y r IH]; intros a H; cbn [fold_left]; [exact H|].
+    destruct (memV y a) eqn:E; [apply IH, H|]. apply IH. apply (NoDupV_snoc St veq veq_sym); [exact H|].
+    apply (mem_false St veq), E.
+  Qed.
+
+  (* [CollU p C coll]: coll is exactly the collect-worthy part of C, one representative per veq class *)
+  Definition CollU (p_collect : St -> bool) (C coll : list St) : Prop :=
+    (forall c, In c coll -> In c C /\ p_collect c = true) /\
+    (forall x, In x C -> p_collect x = true -> exists c, In c coll /\ veq x c = true) /\
+    NoDupV St veq coll.
+
+  Theorem CollU_combine p Ca a Cb b : CollU p Ca a -> CollU p Cb b -> CollU p (Cb ++ Ca) (cc a b).
+  Proof.
+    intros (A1 & A2 & A3) (B1 & B2 & B3). split; [|split].
+    - intros c Hc. destruct (cc_in b a c Hc) as [H|H].
+      + destruct (A1 c H) as [H1 H2]. split; [apply in_or_app; now right|exact H2].
+      + destruct (B1 c H) as [H1 H2]. split; [apply in_or_app; now left|exact H2].
+    - intros x Hx Hp. apply in_app_or in Hx as [Hx|Hx].
+      + destruct (B2 x Hx Hp) as (c & Hc & Ec). destruct (cc_cover b a c (or_intror Hc)) as (c' & Hc' & Ec').
+        exists c'. split; [exact Hc'|eapply veq_trans; eauto].
+      + destruct (A2 x Hx Hp) as (c & Hc & Ec). destruct (cc_cover b a c (or_introl Hc)) as (c' & Hc' & Ec').
+        exists c'. split; [exact Hc'|eapply veq_trans; eauto].
+    - apply cc_nodup, A3.
+  Qed.
+
+  Lemma CollU_nil p : CollU p [] [].
+  Proof. split; [intros c []|]. split; [intros x []|exact I]. Qed.
+
+  (* the statuses of a strategy state stay a sorted map *)
+  Variable expand : St -> result (list St).
+  Variable enabled_ok : St -> result unit.
+  Variable no_events : St -> result bool.
+  Variable p_collect : St -> bool.
+  Variable p_inv p_goal p_prune : St -> option N.
+  Variable debug : bool.
+  Variable vm : vmode.
+
+  Lemma statuses_sorted_run st fuel s0 ss ss' :
+    ssorted N.compare (ss_statuses ss) ->
+    run_strategy St veq expand enabled_ok no_events p_collect p_inv p_goal p_prune debug vm st fuel s0 ss = ODone ss' ->
+    ssorted N.compare (ss_statuses ss').
+  Proof.
+    intros H E.
+    pose proof (run_preserve St veq expand enabled_ok no_events p_collect p_inv p_goal p_prune debug vm
+                  (fun ss => ssorted N.compare (ss_statuses ss))) as P.
+    assert (P1 : forall (ss : sstate St) (s : St) (ss1 : sstate St) (v : verdict),
+               ssorted N.compare (ss_statuses ss) ->
+               check_state St veq no_events p_collect p_inv p_goal p_prune debug ss s = Ok (ss1, v) ->
+               (forall m : N, v <> VErr m) -> ssorted N.compare (ss_statuses ss1)).
+    { intros ss2 s ss1 v H2 Hc _. apply check_state_spec in Hc as (_ & _ & _ & _ & HS). rewrite HS.
+      unfold upd_statuses. destruct debug; [|exact H2].
+      destruct (counted_status St p_inv p_goal p_prune s) as [k|]; [|exact H2].
+      unfold bump. destruct (sget N.compare k (ss_statuses ss2)); apply (ssorted_sins _ CmpSpec_N); exact H2. }
+    assert (P2 : forall (ss : sstate St) (s : St), ssorted N.compare (ss_statuses ss) ->
+               ssorted N.compare (ss_statuses (mark_visited St veq vm ss s))).
+    { intros ss2 s H2. destruct (mk_other St veq vm ss2 s) as (_ & _ & E3). rewrite E3. exact H2. }
+    specialize (P P1 P2 st fuel s0 ss H). rewrite E in P. exact P.
+  Qed.
+
+  (* one stage started with empty statistics: what the stage reports *)
+  Lemma stage_stats st fuel s0 ss0 ss' :
+    ss_statuses ss0 = [] -> ss_collected ss0 = [] ->
+    run_strategy St veq expand enabled_ok no_events p_collect p_inv p_goal p_prune debug vm st fuel s0
+      (mark_visited St veq vm ss0 s0) = ODone ss' ->
+    exists Cn, ss_checked ss' = Cn ++ ss_checked ss0 /\
+      ssorted N.compare (ss_statuses ss') /\
+      (debug = true -> forall k, cnt k (ss_statuses ss') = count_status St (counted_status St p_inv p_goal p_prune) k Cn) /\
+      (debug = false -> ss_statuses ss' = []) /\
+      CollU p_collect Cn (ss_collected ss').
+  Proof.
+    intros Hs Hc E. destruct (mk_other St veq vm ss0 s0) as (M1 & M2 & M3).
+    pose proof (collected_gen St veq expand enabled_ok no_events p_collect p_inv p_goal p_prune debug veq_refl veq_sym
+                  vm st fuel s0 (ss_checked ss0) (mark_visited St veq vm ss0 s0)) as G.
+    rewrite E in G. destruct G as (Cn & EC & G1 & G2 & G3).
+    { exists []. rewrite M1, M2, Hc. split; [reflexivity|]. split; [intros c []|]. split; [intros x []|exact I]. }
+    exists Cn. split; [exact EC|]. split.
+    { apply (statuses_sorted_run st fuel s0 (mark_visited St veq vm ss0 s0) ss'); [rewrite M3, Hs; constructor|exact E]. }
+    split; [|split].
+    - intros Hd.
+      pose proof (status_gen St veq expand enabled_ok no_events p_collect p_inv p_goal p_prune debug vm st fuel s0
+                    (ss_checked ss0) (mark_visited St veq vm ss0 s0) Hd) as S.
+      rewrite E in S. destruct S as (Cn' & EC' & S).
+      { exists []. rewrite M1, M3, Hs. split; reflexivity. }
+      rewrite EC in EC'. apply app_inv_tail in EC'. subst Cn'. exact S.
+    - intros Hd.
+      pose proof (status_off_gen St veq expand enabled_ok no_events p_collect p_inv p_goal p_prune debug vm st fuel s0
+                    [] (mark_visited St veq vm ss0 s0) Hd) as S.
+      rewrite E in S. apply S. rewrite M3. exact Hs.
+    - split; [exact G1|]. split; [exact G2|exact G3].
+  Qed.
+End Combine.
 
 Section McSearch.
   Context {T : Type}.
@@ -587,6 +761,30 @@ Section McSearch.
   Lemma StInv_started (sys : mcsys) : StInv tleb (started sys) <-> StInv tleb sys.
   Proof. reflexivity. Qed.
 
+
+  (* the invariant of the stage system for preliminary callbacks that only change the ordering mode or the network
+     (for CbLocal / CbCrash it has to be established separately: EqBisim proves preservation for take_choice only) *)
+  Definition cb_simple (o : @cbop T) : Prop := match o with CbMode _ | CbNet _ => True | _ => False end.
+
+  Lemma net_apply_loc (n : mcnet) o : n_loc (net_apply n o) = n_loc n.
+  Proof. destruct o; reflexivity. Qed.
+
+  Lemma StInv_cb_simple cb : forall (s s2 : mcsys),
+    Forall cb_simple cb -> StInv tleb s -> cb_runM s cb = Ok s2 -> StInv tleb s2.
+  Proof.
+    induction cb as [|o r IH]; intros s s2 HF I H; cbn [cb_run] in H.
+    - injection H as <-. exact I.
+    - inversion HF as [|o' r' Ho Hr]; subst.
+      destruct o as [node proc m|node|mf|o']; try contradiction; cbn [cb_apply bind] in H.
+      + refine (IH _ s2 Hr _ H). exact I.
+      + refine (IH _ s2 Hr _ H). destruct I as (P & S & D). split; [|split; [exact S|exact D]].
+        intros nn nd p Hn Hp. cbn [s_net sys_with]. rewrite net_apply_loc. exact (P nn nd p Hn Hp).
+  Qed.
+
+  Corollary StInv_stage_simple sys cb s2 :
+    Forall cb_simple cb -> StInv tleb sys -> cb_runM (started sys) cb = Ok s2 -> StInv tleb s2.
+  Proof. intros HF I H. apply (StInv_cb_simple cb (started sys) s2 HF); [apply StInv_started; exact I|exact H]. Qed.
+
   Section Run.
     Variable sys : mcsys.
     Variable cb : list (@cbop T).
@@ -999,6 +1197,102 @@ Section McSearch.
       split; [exact K4|]. split; [exact K3|]. split; [exact K2|exact A].
     Qed.
   End Starts.
+
+  (* ================= C16: the combined statistics of run_starts / run_from_states ================= *)
+  (* no side condition at all: McStats::combine adds up the per-stage status counters and unions the collected states *)
+  Lemma run_impl_cb cf sys cb ss r : run_implM cf pr sys cb ss = Ok r -> exists s2, cb_runM (started sys) cb = Ok s2.
+  Proof.
+    intros H. unfold run_impl in H. fold (started sys) in H. cbv zeta in H.
+    destruct (cb_runM (started sys) cb) as [s2|t]; [eauto|discriminate].
+  Qed.
+
+  Local Notation cstatus := (counted_status mcstate (pr_inv pr) (pr_goal pr) (pr_prune pr)).
+  Local Notation CollUM := (CollU mcstate veq (pr_collect pr)).
+
+  Theorem run_starts_stats cf cb : forall starts sys ss stat coll C0 sys' stat' coll' ss',
+    ss_statuses ss = [] -> ss_collected ss = [] -> CollUM C0 coll ->
+    run_startsM cf pr sys cb starts ss stat coll = Ok (sys', ROk stat' coll', ss') ->
+    exists Cn, ss_checked ss' = Cn ++ ss_checked ss /\
+      (cf_debug cf = true -> forall k, cnt k stat' = cnt k stat + count_status mcstate cstatus k Cn) /\
+      (cf_debug cf = false -> stat' = stat) /\
+      CollUM (Cn ++ C0) coll' /\ ss_statuses ss' = [] /\ ss_collected ss' = [].
+  Proof.
+    induction starts as [|st r IH]; intros sys ss stat coll C0 sys' stat' coll' ss' Hs Hc HU H; cbn [run_starts] in H.
+    - injection H as _ <- <- <-. exists []. split; [reflexivity|]. split.
+      { intros _ k. unfold count_status. cbn. lia. }
+      split; [reflexivity|]. split; [exact HU|]. split; [exact Hs|exact Hc].
+    - destruct (set_state sys st) as [s1|t]; cbn [bind] in H; [|discriminate].
+      destruct (run_implM cf pr s1 cb ss) as [[[s1' res] ss1]|t] eqn:Er; cbn [bind] in H; [|discriminate].
+      destruct res as [stat1 coll1|m tr| |t]; try (injection H as _ Hx _; discriminate Hx).
+      destruct (run_impl_cb _ _ _ _ _ Er) as (s2 & Hcb).
+      pose proof (run_impl_inv cf s1 cb ss s1' _ ss1 s2 Hcb Er) as V.
+      destruct (stratS s2 cf (get_state s2) (mkS (cf_vm cf) ss (get_state s2))) as [ssx|m1 st1 ssx| |t] eqn:E;
+        destruct V as [V1 V2]; try discriminate V1.
+      injection V1 as -> ->. subst ss1.
+      destruct (stage_stats mcstate veq mc_veq_refl mc_veq_sym (expM s2) (mc_enabled_ok so s2) (mc_no_events so)
+                  (pr_collect pr) (pr_inv pr) (pr_goal pr) (pr_prune pr) (cf_debug cf) (cf_vm cf)
+                  (cf_strategy cf) (cf_fuel cf) (get_state s2) ss ssx Hs Hc E) as (C1 & E1 & Hsort & S1 & S0 & U1).
+      destruct (IH s1' (reset mcstate ssx) _ _ (C1 ++ C0) sys' stat' coll' ss' eq_refl eq_refl
+                  (CollU_combine mcstate veq mc_veq_refl mc_veq_sym mc_veq_trans _ _ _ _ _ HU U1) H)
+        as (C2 & E2 & T1 & T0 & U2 & Z1 & Z2).
+      cbn [reset ss_checked] in E2.
+      exists (C2 ++ C1). split; [rewrite E2, E1; apply app_assoc|]. split.
+      { intros Hd k. rewrite (T1 Hd k), (cnt_combine _ _ k Hsort), (S1 Hd k), count_status_app. lia. }
+      split.
+      { intros Hd. rewrite (T0 Hd), (S0 Hd). reflexivity. }
+      split; [rewrite <- app_assoc; exact U2|]. split; [exact Z1|exact Z2].
+  Qed.
+
+  Section FromStates.
+    Variable tr_cmp : list (logentry T) -> list (logentry T) -> comparison.
+    Local Notation run_from_statesM := (run_from_states so teqb tgt0 teq0 t0 clock ps_eqb handler DS mc_rand ds_of tr_cmp).
+
+    Theorem run_from_states_stats ord cf sys cb starts sys' stat coll ss' :
+      run_from_statesM ord cf pr sys cb starts = Ok (sys', ROk stat coll, ss') ->
+      (cf_debug cf = true -> forall k, cnt k stat = count_status mcstate cstatus k (ss_checked ss')) /\
+      (cf_debug cf = false -> stat = []) /\
+      CollUM (ss_checked ss') coll.
+    Proof.
+      intros H. unfold run_from_states in H.
+      destruct (run_startsM cf pr sys cb (sort_starts tr_cmp (ord starts)) (ss_empty mcstate) [] [])
+        as [[[s1 res] ss1]|t] eqn:Er; cbn [bind] in H; [|discriminate].
+      destruct (set_state s1 (get_state sys)) as [sx|t]; cbn [bind] in H; [|discriminate].
+      injection H as _ -> ->.
+      destruct (run_starts_stats cf cb (sort_starts tr_cmp (ord starts)) sys (ss_empty mcstate) [] [] [] s1 stat coll ss'
+                  eq_refl eq_refl (CollU_nil mcstate veq (pr_collect pr)) Er)
+        as (Cn & E & T1 & T0 & U & _).
+      cbn [ss_empty ss_checked] in E. rewrite app_nil_r in E. rewrite app_nil_r in U. subst Cn.
+      split; [intros Hd k; rewrite (T1 Hd k); reflexivity|]. split; [exact T0|exact U].
+    Qed.
+  End FromStates.
+
+
+  (* a run_starts that reports ROk went through all its stages *)
+  Lemma run_starts_stages cf cb : forall starts sys ss stat coll sys' stat' coll' ss',
+    wf_sys sys -> run_startsM cf pr sys cb starts ss stat coll = Ok (sys', ROk stat' coll', ss') ->
+    exists s2s, Stages cb sys starts s2s.
+  Proof.
+    induction starts as [|st r IH]; intros sys ss stat coll sys' stat' coll' ss' W H; cbn [run_starts] in H.
+    - exists []. constructor.
+    - destruct (set_state sys st) as [s1|t] eqn:Es; cbn [bind] in H; [|discriminate].
+      destruct (run_implM cf pr s1 cb ss) as [[[s1' res] ss1]|t] eqn:Er; cbn [bind] in H; [|discriminate].
+      destruct res as [stat1 coll1|m tr| |t]; try (injection H as _ Hx _; discriminate Hx).
+      destruct (set_state_frame _ _ _ Es W) as [W1 _].
+      pose proof (run_impl_rolls_back _ _ _ _ _ _ _ _ _ _ _ _ _ _ _ _ _ _ _ W1 Er) as Hrb. subst s1'.
+      destruct (run_impl_cb _ _ _ _ _ Er) as (s2 & Hcb).
+      destruct (IH s1 _ _ _ _ _ _ _ W1 H) as (l & Hl).
+      exists (s2 :: l). econstructor; eauto.
+  Qed.
+
+  (* on states with an Ok verdict (everything a finished search has checked: mc_search_sound, run_from_states_staged)
+     the status check_state counts is the one reported by goal, else prune *)
+  Lemma count_counted_final C k :
+    (forall y, In y C -> vkM y = Ok VFinal \/ vkM y = Ok VGo) ->
+    count_status mcstate cstatus k C = count_status mcstate (final_status mcstate (pr_goal pr) (pr_prune pr)) k C.
+  Proof.
+    intros H. unfold count_status. f_equal. f_equal. apply filter_ext_in. intros x Hx.
+    unfold counted_status. rewrite (vk_ok_inv _ _ _ _ _ _ (H x Hx)). reflexivity.
+  Qed.
 End McSearch.
 
 Print Assumptions mc_search_sound.
@@ -1032,4 +1326,6 @@ Print Assumptions mc_staged_run_frame.
 Print Assumptions stages_same_frame.
 Print Assumptions run_starts_staged.
 Print Assumptions run_from_states_staged.
+Print Assumptions run_starts_stats.
+Print Assumptions run_from_states_stats.
 Print Assumptions Closed_frame.
